@@ -31,6 +31,7 @@ func init() {
 
 func runC27(c *Ctx) {
 	w := c.W
+	c27Extras(c)
 	c.alertSummary()
 	// ---- A. verifyServerCertificate
 	if fn := w.Fn(fnVSC); fn == nil {
